@@ -312,6 +312,20 @@ def run_projection(chk, case, A, kappa):
         P = PR.Projection(np.array(A))
         if not (N.close(P.Q, Q, k2, C) and N.close(P.oQ, oQ, k2, C, scale_=1.0)):
             chk.fail(("projection", "object_vs_static"), case)
+        # alternative entry points of the same computation: class static, instance, module alias
+        for nm, alt in (("Projection.calcProjectionMatrix", PR.Projection.calcProjectionMatrix(np.array(A))),
+                        ("instance.calcProjectionMatrix", P.calcProjectionMatrix(np.array(A))),
+                        ("instance.calcOrthogonalProjectionMatrix+Q",
+                         P.calcOrthogonalProjectionMatrix(np.array(A)) + Q)):
+            ref = I if nm.endswith("+Q") else Q
+            if not N.close(alt, ref, k2, C):
+                chk.fail(("projection", "entry_point_differs", nm), case, observed=N.err(alt, ref), expected=0)
+        # a second live Projection object of another subspace is created and used before P is used
+        B2 = F.generic(7, (m, max(1, m - n)), True, tag=23)
+        P2 = PR.Projection(np.array(B2))
+        U2 = np.linalg.svd(B2, full_matrices=False)[0]
+        M2 = F.generic(4, (m, 2), True, tag=23)
+        p2a = P2.project(M2)
         for mi, Mx in enumerate((F.generic(1, (m, 2), True, tag=23), F.generic(2, (m,), True, tag=23),
                                  F.generic(3, (m, 1), False, tag=23))):
             pr, op, rf = P.project(Mx), P.oProject(Mx), P.reflect(Mx)
@@ -324,6 +338,9 @@ def run_projection(chk, case, A, kappa):
                 if not N.close(lhs, rhs, k2, C, scale_=sc):
                     chk.fail(("projection", nm), dict(case, M_index=mi), observed=N.err(lhs, rhs), expected=0,
                              msg="kappa %.3g" % kappa)
+        if not N.close(P2.project(M2), p2a, 1.0, C) or not N.close(p2a, U2 @ H(U2) @ M2, F.cond(B2) ** 2, C):
+            chk.fail(("projection", "second_live_object_disturbed"), case,
+                     observed=N.err(p2a, U2 @ H(U2) @ M2), expected=0)
     alias_battery(chk, "calcProjectionMatrix", PR.calcProjectionMatrix, [A], case, k2)
     alias_battery(chk, "calcOrthogonalProjectionMatrix", PR.calcOrthogonalProjectionMatrix, [A], case, k2)
 
@@ -458,11 +475,13 @@ def run_eig(chk, case, Cm, which):
                           compare_layouts=False)
         cs = dict(case, kernel=fn, matrix=which, k=Nn + 1)
         chk.count("eval_" + fn)
+        Cin = np.array(Cm)
         try:
-            f(np.array(Cm), Nn + 1)
+            f(Cin, Nn + 1)
             chk.fail((fn, "no_ValueError_for_k>N"), cs, observed="returned", expected="ValueError")
         except ValueError:
-            pass
+            if not np.array_equal(Cin, Cm):
+                chk.fail((fn, "rejected_call_changed_argument"), cs)
         except Exception as e:  # noqa
             chk.fail((fn, "wrong_exception_for_k>N"), cs, observed=type(e).__name__, expected="ValueError")
 
@@ -502,12 +521,37 @@ def run_whiten(chk, case, Cm, which):
 
 
 # ----------------------------------------------------------------------
+def run_rank_deficient(chk, case, A):
+    """error path: the projection of a rank-deficient matrix does not exist.  The call may raise
+    LinAlgError (exactly singular A^H A) or return something; it must not change its argument, must not
+    raise anything else, and must leave later (valid) projections untouched"""
+    from pyphysim.subspace import projections as PR
+    chk.count("eval_projection_error_path")
+    A0 = np.array(A)
+    with chk.guard(("projection", "rank_deficient"), case):
+        out = "returned"
+        try:
+            PR.Projection(A0)
+        except np.linalg.LinAlgError:
+            out = "LinAlgError"
+        if not np.array_equal(A0, A):
+            chk.fail(("projection", "rejected_call_changed_argument"), case)
+        chk.outcome("proj_error_path", out)
+        G = F.generic(0, (A.shape[0], 1), True, tag=23)
+        Ug = G / np.linalg.norm(G)
+        if not N.close(PR.calcProjectionMatrix(G), Ug @ H(Ug), 1.0, C):
+            chk.fail(("projection", "valid_call_after_rejected_call_wrong"), case)
+
+
 def run_matrix_item(chk, fam, member, A):
     m, n = A.shape
     kappa, sv = kappa_of(A)
     chk.count("matrices_enumerated")
     if not math.isfinite(kappa):
         chk.count("excluded_rank_deficient")
+        if not fam.endswith("_eigonly") and sv[0] > 0:
+            run_rank_deficient(chk, {"part": "matrix", "fam": fam, "member": member, "A": A,
+                                     "kernel": "rank_deficient"}, A)
         return
     if kappa > bound(K_MAX):
         chk.count("excluded_kappa_above_1e6")
@@ -550,7 +594,9 @@ def replay_matrix(chk, case):
     kappa, sv = kappa_of(A)
     base = {k: case[k] for k in ("part", "fam", "member", "A")}
     Ac = np.asarray(A, dtype=complex if np.iscomplexobj(A) else float)
-    if kern == "projection":
+    if kern == "rank_deficient":
+        run_rank_deficient(chk, dict(base, kernel="rank_deficient"), A)
+    elif kern == "projection":
         run_projection(chk, dict(base, kernel="projection"), A, kappa)
     elif kern == "gmd":
         run_gmd(chk, dict(base, kernel="gmd"), A, kappa, sv)
@@ -870,6 +916,21 @@ def run_conv(chk):
                 chk.fail(("conversion", rn, "pyint"), {"part": "conv", "form": "pyint", "what": rn},
                          observed=got, expected=want_)
         chk.nontriv(("conv", "grids"))
+    with chk.guard(("conversion", "zero_arguments"), case0):
+        zero_forms = (("pyint", 0), ("pyfloat", 0.0), ("npfloat", np.float64(0.0)), ("array", np.zeros(3)),
+                      ("neg_zero", -0.0))
+        for form, z in zero_forms:
+            one = z + 1 if form != "array" else np.ones(3)
+            for rn, got, want_ in (("dB2Linear(0)", CV.dB2Linear(z), 1.0), ("dBm2Linear(0)", CV.dBm2Linear(z), 1e-3),
+                                   ("linear2dB(1)", CV.linear2dB(one), 0.0), ("linear2dBm(1)", CV.linear2dBm(one), 30.0),
+                                   ("SNR_dB_to_EbN0_dB(0,1)", CV.SNR_dB_to_EbN0_dB(z, 1), 0.0),
+                                   ("EbN0_dB_to_SNR_dB(0,1)", CV.EbN0_dB_to_SNR_dB(z, 1), 0.0),
+                                   ("SNR_dB_to_EbN0_dB(0,4)", CV.SNR_dB_to_EbN0_dB(z, 4), -10 * math.log(4) / LN10)):
+                chk.count("eval_conv")
+                g = np.asarray(got, dtype=float)
+                if g.shape != np.shape(z) or not np.all(np.abs(g - want_) <= rt * max(abs(want_), 1.0)):
+                    chk.fail(("conversion", rn, "zero_argument"), {"part": "conv", "form": form, "what": rn},
+                             observed=got, expected=want_)
     lin_g = np.array([math.exp((-15.0 + 0.5 * i) * LN10) for i in range(61)])
     db_g = np.array([-150.0 + 5 * i for i in range(61)])
     for nm, grid in (("dB2Linear", db_g), ("dBm2Linear", db_g), ("linear2dB", lin_g), ("linear2dBm", lin_g)):
